@@ -20,8 +20,8 @@ from vlib.runner import Inconclusive, Sub, Violation
 PROPERTY = "C11"
 RULE_PARTS = [
     "graphs: exhaustive over all labelled graphs on 0..4 nodes (quick: n<=3 over element{C,N} x charge{0,-1} x "
-    "order{absent,1,2}, n=4 over element{C,N} x order{absent,1,2}; thorough adds n=4 with charge and n=5 over "
-    "element{C,N} x order{absent,1,2}), Hypothesis graphs <= 9 nodes (random labels, low-entropy labels, symmetric "
+    "order{absent,1,2}, n=4 over element{C,N} x order{absent,1,2}, every 8th graph on 5 nodes over element{C,N} x "
+    "order{absent,1}; thorough adds n=4 with charge and all of n=5 over element{C,N} x order{absent,1,2}), Hypothesis graphs <= 9 nodes (random labels, low-entropy labels, symmetric "
     "families with relabelled ids, disconnected graphs with isomorphic / one-edit twin components), each with "
     "generated key lists, missing attributes, anchor flag and refinement bound. Oracle: brute-force label-preserving "
     "automorphisms per component (count = product, orbits = union, swaps excluded), full-group orbits for the "
@@ -49,7 +49,10 @@ DEF_OPT = dict(nkeys=None, ekeys=None, anchor_largest=True, est_nkeys=None, est_
 
 # ---------------------------------------------------------------- helpers
 def _fmt(blocks):
-    return sorted(sorted(b, key=repr) for b in blocks)
+    try:
+        return sorted(sorted(b) for b in blocks)
+    except TypeError:
+        return sorted((sorted(b, key=repr) for b in blocks), key=repr)
 
 
 def _build(case):
@@ -462,9 +465,14 @@ def dedup_case(draw):
             host = draw(graph_gen.graphs(min_nodes=2, max_nodes=7, node_attrs=na, edge_attrs=ea, max_components=2, extra_edge_p=0.5))
     else:
         host = draw(graph_gen.graphs(min_nodes=2, max_nodes=7, node_attrs=na, edge_attrs=ea, max_components=2, extra_edge_p=0.5))
-    pk = draw(st.sampled_from(["cut", "cut", "free", "twin"]))
+    pk = draw(st.sampled_from(["cut", "cut", "cut", "free", "twin", "family"]))
     if pk == "cut":
         pattern = draw(cut_pattern(host))
+    elif pk == "family":
+        fams = graph_gen.symmetric_families()
+        n, es = fams[draw(st.sampled_from(["path3", "path4", "star4", "cycle3", "cycle4", "K4"]))]
+        pattern = {"nodes": [[i + 1, draw(na)] for i in range(n)], "edges": [[u + 1, v + 1, draw(ea)] for u, v in es]}
+        pattern, _ = draw(graph_gen.relabelled(pattern, id_pool=30))
     elif pk == "free":
         pattern = draw(graph_gen.graphs(min_nodes=1, max_nodes=4, node_attrs=na, edge_attrs=ea, max_components=2, id_pool=30))
     else:
